@@ -33,6 +33,7 @@ func emitPartRace(c *ctx, race bool) map[string]interface{} {
 		MaxDepth      int `json:"max_nesting_depth"`
 		Concurrent    int `json:"cases_with_concurrent_derivation"`
 		Reused        int `json:"stacks_built_again_from_the_same_argument_slice"`
+		ArgsMutated   int `json:"stacks_whose_argument_slice_was_overwritten_afterwards"`
 		Distinct      int `json:"distinct_constructions"`
 		Viols         []struct {
 			Case int    `json:"case"`
@@ -75,12 +76,13 @@ func emitPartRace(c *ctx, race bool) map[string]interface{} {
 		"distinct_nontrivial": r.Distinct,
 		"rule": "Engine E: cff.EmitterStack / cff.NopEmitter observed at their API: random forests of stacks over 2..13 recording emitters (stacks shared between several parents, nested in any argument position, one base extended many times, chains, concurrent derivation from a shared base, no-op emitters among the arguments, a second stack built from the same argument slice) are built first, then a unique event sequence (all Task/Flow/Parallel/Scheduler emitter methods, payload identity) is driven through every stack; " +
 			"each recording emitter must receive, for every stack it is part of, exactly that sequence, and nothing of any other stack. distinct = distinct construction descriptions (which emitters and stacks each stack was built from) with at least two stacks",
-		"stacks_built":                                r.Stacks,
-		"stacks_sharing_a_child":                      r.SharedParents,
-		"event_sequences_driven":                      r.Drives,
-		"events_received_and_compared":                r.Events,
-		"max_nesting_depth":                           r.MaxDepth,
-		"cases_with_concurrent_derivation":            r.Concurrent,
-		"stacks_built_again_from_same_argument_slice": r.Reused,
+		"stacks_built":                                                r.Stacks,
+		"stacks_sharing_a_child":                                      r.SharedParents,
+		"event_sequences_driven":                                      r.Drives,
+		"events_received_and_compared":                                r.Events,
+		"max_nesting_depth":                                           r.MaxDepth,
+		"cases_with_concurrent_derivation":                            r.Concurrent,
+		"stacks_built_again_from_same_argument_slice":                 r.Reused,
+		"stacks_whose_argument_slice_the_caller_overwrote_afterwards": r.ArgsMutated,
 	}
 }
